@@ -139,9 +139,9 @@ Proof.
     cbn [po_result po_scans is_tree_or_error recv_of]. split; [exact I|].
     split; [unfold kap, lpz in *; cbn [pst_init p_recv p_peek] in *; lia|].
     eexists; split; [reflexivity|]. split; [reflexivity|]. intros E; subst; reflexivity.
-  - destruct H as (A & B & C). subst t. pose proof (pi_peek _ _ _ _ A).
-    pose proof (twf_pos _ _ (pinv_err_tok _ _ _ _ A)) as Hpos.
-    destruct (N.leb_spec (t_pos (err_tok p)) inlen); [|lia].
+  - destruct H as (A & B & C). pose proof (pi_peek _ _ _ _ A).
+    pose proof (twf_pos _ _ C) as Hpos.
+    destruct (N.leb_spec (t_pos t) inlen); [|lia].
     cbn [po_result po_scans is_tree_or_error recv_of]. split; [exact I|].
     split; [unfold kap, lpz in *; cbn [pst_init p_recv p_peek] in *; lia|].
     eexists; split; [reflexivity|]. split; [reflexivity|]. intros E; reflexivity.
